@@ -415,6 +415,9 @@ func init() {
 				add(0, "browser", "chrome", "method", "plain", "ending", end, "draws", d, "sizes", "1,5000")
 			}
 		}
+		// full frames (a write larger than any frame) with the largest padding draws: the longest records a session produces
+		add(0, "browser", "firefox", "method", "aes-256-gcm", "ending", "client-close", "draws", "max", "sizes", "20000,40000", "numconn", "1")
+		add(0, "browser", "chrome", "method", "plain", "ending", "server-close", "draws", "max", "sizes", "20000", "numconn", "2")
 		// concurrent handshakes with recycling pools: of one session's connections, and of two clients in one process
 		add(map[bool]int{true: 1, false: 2}[q], "browser", "firefox", "sizes", "1", "numconn", "2", "ending", "client-close", "pool", "recycle")
 		add(map[bool]int{true: 2, false: 3}[q], "browser", "firefox", "sizes", "1", "numconn", "1", "ending", "client-close", "pool", "recycle", "second", "other.example.net", "servername", "example.com")
@@ -429,6 +432,7 @@ func init() {
 		}
 		jobs = append(jobs, vx.Job{Scenario: "wire.udp", Weight: 6})
 		jobs = append(jobs, vx.Job{Scenario: "wire.names", Weight: 1})
+		jobs = append(jobs, vx.Job{Scenario: "wire.refused", Bound: 1, BudgetS: 100, Weight: 2})
 		// a failed write on one connection followed by overlapping writers on others (recycling pools):
 		// each Write still puts exactly its own record on the wire (shared with C05)
 		jobs = append(jobs, vx.Job{Scenario: "tls.writefault2", Params: vx.P("pool", "recycle"), Bound: 2, BudgetS: 100, Weight: 5})
